@@ -179,3 +179,15 @@ Proof.
   destruct (forallb (instance_of (vt s)) items) eqn:Ef; [|reflexivity].
   rewrite forallb_forall in Ef. rewrite (Ef x Hin) in H. discriminate.
 Qed.
+
+(* C07 for Vector: a raising single-call operation stores nothing *)
+Theorem vstep_raise_unchanged s op e s' : (forall vs, op <> VExtend vs /\ op <> VIadd vs) ->
+  v_step s op = (Raise e, s') -> s' = s.
+Proof.
+  intro Hne. destruct op; cbn [v_step]; intro H;
+  try (exfalso; destruct (Hne vs) as [A B]; congruence);
+  repeat match goal with
+  | H : (match ?x with _ => _ end) = _ |- _ => destruct x eqn:?
+  | H : (if ?x then _ else _) = _ |- _ => destruct x eqn:?
+  end; inversion H; subst; try reflexivity.
+Qed.
